@@ -29,12 +29,120 @@ from harness.core import Prop, outcome, InternalError
 
 KINDS = ["laser", "srr", "laser_npz", "srr_npz"]
 DTYPES = ["<f8", "<f4"]
+# the byte-swapped twins: generated for arrays handed to add() and for the start arrays of every kind but srr_npz
+SWAPPED = [">f8", ">f4"]
+# data ids from WIDE on (odd, so 31 significant bits) are not float32 values: an array of a 64-bit dtype filled with
+# one of them comes back changed from any detour through a narrower type.  The low part stays the running counter.
+WIDE = 2 ** 30
+
+
+def narrow(i):
+    return i % WIDE
+
+
+def is_f8(dt):
+    return np.dtype(dt).itemsize == 8
+
+
+def widen(i, dt, yes):
+    """the id an array of dtype `dt` gets: beyond float32 precision when asked for and the dtype can hold it"""
+    return i + WIDE if yes and is_f8(dt) and i < WIDE else i
+
+
+def start_layer_dtypes(start, li):
+    """field dtypes of start layer `li`: `layer_dtypes` (one list per layer) when the layers differ, else `dtypes`"""
+    ld = start.get("layer_dtypes")
+    return list(ld[li]) if ld else list(start["dtypes"])
+
+
+def add_dtypes(op, n):
+    """dtype of each array handed to add(): `dtypes` (one per layer) when they differ, else `dtype` for all"""
+    return list(op["dtypes"]) if op.get("dtypes") else [op["dtype"]] * n
+
+
+def mixed_layers(dts):
+    return len({np.dtype(d).str for d in dts}) > 1
+
+
+def swapped(dt):
+    return np.dtype(dt).str != np.dtype(dt).newbyteorder("=").str
+
+
+def dtype_features(start, ops):
+    """which of the dtype / value classes a case exercises"""
+    f = set()
+    nl = len(start["ids"])
+    cols = [[start_layer_dtypes(start, li)[j] for li in range(nl)] for j in range(len(start["names"]))]
+    if any(mixed_layers(c) for c in cols):
+        f.add("start:layers-of-different-dtype")
+        if any(not is_f8(c[0]) and any(is_f8(d) for d in c[1:]) for c in cols):
+            f.add("start:layer0-narrower-than-a-later-layer")
+    if any(swapped(d) for c in cols for d in c):
+        f.add("start:byte-swapped-dtype")
+    if any(i >= WIDE for l in start["ids"] for i in l):
+        f.add("start:value-beyond-float32")
+    for op in ops:
+        if op["op"] != "add":
+            continue
+        dts = add_dtypes(op, len(op["data"]))
+        if mixed_layers(dts):
+            f.add("add:layers-of-different-dtype")
+            f.add("add:layer0-narrower-than-a-later-layer" if not is_f8(dts[0]) and any(is_f8(d) for d in dts[1:])
+                  else "add:layer0-not-the-narrowest" if is_f8(dts[0]) else "add:layers-differ-in-byte-order-only")
+            if cols and any(mixed_layers(c) for c in cols):
+                f.add("add:layers-of-different-dtype-onto-such-a-start")
+        if any(swapped(d) for d in dts):
+            f.add("add:byte-swapped-dtype")
+        if any(i >= WIDE for i in op["data"]):
+            f.add("add:value-beyond-float32")
+    return f
+
+
+class OutOfScope(Exception):
+    """the case is not one the comparison is sound for (a shrinker or a hand-written replay may build one)"""
+
+
+def guard(kind, start, ops):
+    """Conditions the decoding of observed values rests on, checked for ANY case before it is run:
+    * every array's fill value (its id) is exactly representable in the array's dtype;
+    * a laser that goes through an npz file is saved as ONE stacked array: SRR layers with different field dtypes
+      are promoted by np.savez, a byte-swapped field comes back in native order (known finding C01-srr-byteorder) -
+      such a start is not a well-formed "after an npz round trip" laser;
+    * the reconstruction read of an SRR laser (layer=None, read when cfg == 1) stacks all layers into an array of
+      layer 0's dtype: with layers of different precision a value beyond float32 precision would come back rounded.
+      That read is outside the property's quantifier (see `assumptions`): such cases are not judged."""
+    srr = kind.startswith("srr")
+    nl = len(start["ids"])
+    births = []  # every element ever stored: its per-layer ids and dtypes (rename / remove do not change them)
+    for li in range(nl):
+        if len(start_layer_dtypes(start, li)) != len(start["names"]) or len(start["ids"][li]) != len(start["names"]):
+            raise InternalError("start: one id and one dtype per field and layer")
+    for j in range(len(start["names"])):
+        col = [start_layer_dtypes(start, li)[j] for li in range(nl)]
+        if mixed_layers(col) and kind.endswith("_npz"):
+            raise OutOfScope("npz start with layers of different field dtypes")
+        if kind == "srr_npz" and any(swapped(d) for d in col):
+            raise OutOfScope("srr npz start with a byte-swapped field (C01-srr-byteorder)")
+        births.append(([start["ids"][li][j] for li in range(nl)], col))
+    for op in ops:
+        if op["op"] == "add":
+            dts = add_dtypes(op, len(op["data"]))
+            if len(dts) != len(op["data"]):
+                raise InternalError("add: one dtype per array")
+            births.append((list(op["data"]), dts))
+    for ids, dts in births:
+        for i, dt in zip(ids, dts):
+            t = np.dtype(dt)
+            if t.kind != "f" or float(t.type(i)) != float(i) or int(t.type(i)) != i:
+                raise OutOfScope(f"id {i} is not a value of dtype {dt}")
+        if srr and start["cfg"] == 1 and dts and not is_f8(dts[0]) and any(i >= WIDE for i in ids[1:]):
+            raise OutOfScope("reconstruction read: a value beyond float32 under a 32-bit field of layer 0")
 
 
 # ----------------------------------------------------------------------------- abstract tracking (generator side)
 def start_state(start):
     """(present names in order, next data id, next cal id) of a start description"""
-    ids = [i for layer in start["ids"] for i in layer]
+    ids = [narrow(i) for layer in start["ids"] for i in layer]
     cals = [c for _, c in (start["given"] or [])]
     return list(start["names"]), max(ids + [-1]) + 2, max(cals + [0]) + 1
 
@@ -69,7 +177,7 @@ def abstract_run(start, ops):
         if present is None:
             return None
         if op["op"] == "add":
-            did = max(did, max(op["data"]) + 2)
+            did = max(did, max(map(narrow, op["data"])) + 2)
             cid = max(cid, op["cal"] + 1)
     return present, did, cid
 
@@ -84,14 +192,25 @@ def rename_maps(present, alphabet):
                 yield list(map(list, zip(dom, img)))
 
 
-def successors(present, alphabet, did, cid, pos, nlayers):
-    """every successful state-changing operation from a state with `present` names"""
+def successors(present, alphabet, did, cid, pos, nlayers, deco=None):
+    """every successful state-changing operation from a state with `present` names.
+    `deco` (decoration of the enumerated adds; the enumeration itself is over names): with "mixed" the arrays handed to an
+    SRR add cycle through all-64-bit, all-32-bit, 32-bit first / 64-bit later, 64-bit first / 32-bit later (by position
+    in the sequence and name); with "wide" every other all-64-bit add and the leading 64-bit array hold a value beyond
+    float32 precision"""
+    deco = deco or {}
     for j, n in enumerate(alphabet):
         if n not in present:
-            data = [did + 2 * i for i in range(nlayers)]
-            withcal = (pos + j) % 2 == 0
-            yield ({"op": "add", "name": n, "data": data, "dtype": DTYPES[(pos + j) % 2], "cal": cid if withcal else 0},
-                   did + 2 * nlayers, cid + (1 if withcal else 0))
+            k = pos + j
+            withcal = k % 2 == 0
+            op = {"op": "add", "name": n, "dtype": DTYPES[k % 2], "cal": cid if withcal else 0}
+            dts = [DTYPES[k % 2]] * nlayers
+            if deco.get("mixed") and nlayers > 1 and k % 4 >= 2:
+                dts = [DTYPES[(li + k + 1) % 2] for li in range(nlayers)]  # k%4 == 2: <f4 first; 3: <f8 first
+                op["dtype"], op["dtypes"] = dts[0], dts
+            wide = [bool(deco.get("wide")) and (k % 4 == 0 or (k % 4 == 3 and li == 0)) for li in range(nlayers)]
+            op["data"] = [widen(did + 2 * li, dts[li], wide[li]) for li in range(nlayers)]
+            yield (op, did + 2 * nlayers, cid + (1 if withcal else 0))
     for r in range(1, len(present) + 1):
         for j, sub in enumerate(itertools.combinations(present, r)):
             names = list(sub) if (pos + j) % 2 == 0 else list(reversed(sub))
@@ -100,12 +219,12 @@ def successors(present, alphabet, did, cid, pos, nlayers):
         yield ({"op": "rename", "map": m if (pos + j) % 2 == 0 else list(reversed(m))}, did, cid)
 
 
-def walk(seq, present, did, cid, depth, alphabet, nlayers):
+def walk(seq, present, did, cid, depth, alphabet, nlayers, deco=None):
     yield seq
     if depth <= 0:
         return
-    for op, d2, c2 in successors(present, alphabet, did, cid, len(seq), nlayers):
-        yield from walk(seq + [op], abstract_apply(present, op), d2, c2, depth - 1, alphabet, nlayers)
+    for op, d2, c2 in successors(present, alphabet, did, cid, len(seq), nlayers, deco):
+        yield from walk(seq + [op], abstract_apply(present, op), d2, c2, depth - 1, alphabet, nlayers, deco)
 
 
 def op_features(op, present):
@@ -241,10 +360,11 @@ class World:
         self.kind, self.start = kind, start
         self.srr = kind.startswith("srr")
         self.reg = {}  # dataId -> (dtype, shape)
-        names, dts = start["names"], start["dtypes"]
+        names = start["names"]
         layers = []
         for li, ids in enumerate(start["ids"]):
             sh = layer_shape(start, li)
+            dts = start_layer_dtypes(start, li)
             arr = np.empty(sh, dtype=[(n, d) for n, d in zip(names, dts)])
             for n, d, i in zip(names, dts, ids):
                 arr[n] = i
@@ -273,10 +393,11 @@ class World:
         k = op["op"]
         if k == "add":
             arrs = []
+            dts = add_dtypes(op, len(op["data"]))
             for li, i in enumerate(op["data"]):
                 sh = layer_shape(self.start, li)
-                self.reg[i] = (op["dtype"], sh)
-                arrs.append(np.full(sh, i, dtype=op["dtype"]))
+                self.reg[i] = (dts[li], sh)
+                arrs.append(np.full(sh, i, dtype=dts[li]))
             self.ncal = max(self.ncal, op["cal"] + 1)
             self.laser.add(op["name"], arrs if self.srr else arrs[0], make_cal(op["cal"]))
         elif k == "remove":
@@ -527,13 +648,22 @@ def driver_req(kind, start, ops, mreads, last_only):
                 roundtrip=kind.endswith("_npz"), ops=dops, reads=mreads, last_only=last_only)
 
 
-def default_start(kind, names=("A", "B")):
+def default_start(kind, names=("A", "B"), deco=None):
+    """`deco` "mixed": the layers of a freshly constructed SRR laser hold every other element in the other precision
+    (layer 0 of the first element 64-bit, of the second 32-bit, ...); "wide": the 64-bit arrays of layer 0 hold values
+    beyond float32 precision"""
+    deco = deco or {}
     srr = kind.startswith("srr")
     nl = 2 if srr else 1
     ids = [[1 + 2 * (li * len(names) + j) for j in range(len(names))] for li in range(nl)]
-    return {"names": list(names), "dtypes": [DTYPES[j % 2] for j in range(len(names))],
-            "shape": [3, 3] if srr else [2, 3], "ids": ids,
-            "given": [[names[0], 1]] if names else None, "cfg": 1}
+    st = {"names": list(names), "dtypes": [DTYPES[j % 2] for j in range(len(names))],
+          "shape": [3, 3] if srr else [2, 3], "ids": ids,
+          "given": [[names[0], 1]] if names else None, "cfg": 1}
+    if deco.get("mixed") and kind == "srr":
+        st["layer_dtypes"] = [[DTYPES[(j + li) % 2] for j in range(len(names))] for li in range(nl)]
+    if deco.get("wide"):
+        st["ids"] = [[widen(i, dt, li == 0) for i, dt in zip(l, start_layer_dtypes(st, li))] for li, l in enumerate(ids)]
+    return st
 
 
 # ----------------------------------------------------------------------------- object-level cases ("obj" mode)
@@ -581,10 +711,11 @@ class ObjWorld:
         self.kind, self.start = kind, start
         self.srr = kind.startswith("srr")
         self.reg = {}
-        names, dts = start["names"], start["dtypes"]
+        names = start["names"]
         self.arrs = []
         for li, ids in enumerate(start["ids"]):
             sh = layer_shape(start, li)
+            dts = start_layer_dtypes(start, li)
             arr = np.empty(sh, dtype=[(n, d) for n, d in zip(names, dts)])
             for n, d, i in zip(names, dts, ids):
                 arr[n] = i
@@ -633,9 +764,10 @@ class ObjWorld:
                     raise InternalError("Laser.add takes one array")
                 shapes = op.get("shapes") or [layer_shape(self.start, li) for li in range(len(op["data"]))]
                 arrs = []
+                dts = add_dtypes(op, len(op["data"]))
                 for li, i in enumerate(op["data"]):
-                    self.reg[i] = (op["dtype"], layer_shape(self.start, li))
-                    a = np.full(shapes[li], i, dtype=op["dtype"])
+                    self.reg[i] = (dts[li], layer_shape(self.start, li))
+                    a = np.full(shapes[li], i, dtype=dts[li])
                     arrs.append(a)
                     self.arrs.append(a)
                 c = op["cal"]
@@ -824,6 +956,60 @@ def obj_do_reads(world, plan):
     return reads, sizes, shares
 
 
+def pick_dtype(rng, native_only=False):
+    return rng.choice(DTYPES) if native_only or rng.random() < 0.75 else rng.choice(SWAPPED)
+
+
+def gen_start_dtypes(rng, kind, n0, nl):
+    """-> (dtypes, layer_dtypes or None).  A file holds one stacked native-order array per SRR laser, so the layers of
+    an srr_npz start share their native dtypes; the layers of a freshly constructed SRRLaser are the caller's and differ
+    in half of the cases (in precision, byte order or both)"""
+    dts = [pick_dtype(rng, kind == "srr_npz") for _ in range(n0)]
+    if kind == "srr" and rng.random() < 0.5:
+        ld = [[d if rng.random() < 0.4 else pick_dtype(rng) for d in dts] for _ in range(nl)]
+        if any(mixed_layers([ld[li][j] for li in range(nl)]) for j in range(n0)):
+            return ld[0], ld
+    return dts, None
+
+
+def gen_add_dtypes(rng, srr, nl):
+    """the arrays handed to one add(): one dtype for all layers, or (SRR, half of the adds) one per layer"""
+    if srr and rng.random() < 0.5:
+        return [pick_dtype(rng) for _ in range(nl)]
+    return [pick_dtype(rng)] * nl
+
+
+def gen_widen(rng, srr, cfg, ids, dts):
+    """ids of the arrays of one element (one per layer): 64-bit arrays hold a value beyond float32 precision in 40 % of
+    the cases - not in the later layers of an element whose layer 0 is 32-bit when the reconstruction is read (`guard`)"""
+    out = []
+    for li, (i, dt) in enumerate(zip(ids, dts)):
+        ok = not (srr and cfg == 1 and li > 0 and not is_f8(dts[0]))
+        out.append(widen(i, dt, ok and rng.random() < 0.4))
+    return out
+
+
+def add_op_dtypes(op, dts):
+    """store the dtypes of an add in the case: `dtype` alone when all layers share it"""
+    op["dtype"] = dts[0]
+    if mixed_layers(dts):
+        op["dtypes"] = list(dts)
+    return op
+
+
+def widen_start(rng, srr, start):
+    nl, n0 = len(start["ids"]), len(start["names"])
+    for j in range(n0):
+        col = gen_widen(rng, srr, start["cfg"], [start["ids"][li][j] for li in range(nl)],
+                        [start_layer_dtypes(start, li)[j] for li in range(nl)])
+        for li in range(nl):
+            start["ids"][li][j] = col[li]
+
+
+# decoration of the exhaustive trees (see `successors`, `default_start`); a tree case without "deco" (older replays) has none
+TREE_DECO = {"mixed": True, "wide": True}
+
+
 # ----------------------------------------------------------------------------- the property
 class C07(Prop):
     id = "C07"
@@ -832,17 +1018,27 @@ class C07(Prop):
     rule = ("targeted: every successful add/remove/rename sequence up to length 3 over {A,B,C,D} from Laser, SRRLaser and both "
             "after npz save/load (16368 sequences each; thorough: over 5 names, 76695 each, plus all 578786 length-4 sequences "
             "over 4 names from Laser and SRRLaser and a quarter of them, by prefix, after npz save/load), grouped into trees "
-            "by prefix; all get() variants are read at every node, a reduced set at the deepest leaves; object-level probes on "
+            "by prefix; all get() variants are read at every node, a reduced set at the deepest leaves; the arrays of the "
+            "enumerated adds cycle through all-float64, all-float32, float32 first / float64 later, float64 first / float32 "
+            "later per SRR layer, the fresh SRRLaser starts from layers that differ in precision already, and the leading "
+            "float64 arrays hold values that are not float32 values; 56 probes (42 content-level, 14 object-level) of SRR lasers (2 and 3 layers, fresh and "
+            "loaded, with and without reconstruction reads) whose layers differ in precision, in byte order or both, at "
+            "construction and in add(), followed by swap / chain renames, removes and further adds; object-level probes on "
             "every kind of laser (constructor copies, add by reference, views and copies, write-through, shared offsets array, "
             "one Calibration under two keys, stray calibration keys, every failing call); generated: random histories up to "
             "length 25 - 40 % successful sequences against the content-level model, 60 % object-level histories (adds with "
             "no / a new / an already known Calibration object, removes, renames incl. swaps, cycles, chains, reads, edits of the "
             "caller's Calibration / dict / config objects, in-place writes into the caller's arrays and through returned arrays, "
             "rebinding and in-place writes of the offsets array, failing calls of every kind, constructor dicts with a stray "
-            "key or one object under two keys) with state, all get() variants, identities and memory sharing observed after "
+            "key or one object under two keys; in both kinds of history every array is <f8 / <f4 or, one time in four, >f8 / >f4, "
+            "half of the adds to an SRR laser and half of the freshly constructed SRR lasers have one dtype PER LAYER, "
+            "40 % of the 64-bit arrays hold a value beyond float32 precision) with state, all get() variants, identities and "
+            "memory sharing observed after "
             "every step; non-trivial = at least one state-changing operation; distinct by canonical case hash")
     trusted = ["decoding of observed values: every array is a unique odd constant d, every non-default calibration has gradient "
-               "2**k, so a read value is exactly d/2**k in float32 and float64",
+               "2**k, so a read value is exactly d/2**k in float32 and float64 (d < 2**24 in 32-bit arrays, d < 2**31 in 64-bit "
+               "ones - checked per case before it is run); a stored array decodes to d only if its dtype (byte order included), "
+               "shape and bytes are those of the array the caller made for d",
                "numpy.lib.recfunctions.drop_fields / rename_fields and structured-dtype construction behave as read from NumPy 2.x "
                "(duplicate field names raise ValueError; drop_fields builds new memory, rename_fields returns a view)",
                "identities are observed with `is` (Calibration, dict, config objects) and numpy.shares_memory (arrays, the "
@@ -861,22 +1057,27 @@ class C07(Prop):
                    "followed (the outcome depends on how the dict is rebuilt, the property starts from well-formed lasers)",
                    "order of the element tuple and of the calibration dict is not compared (the property speaks of sets)",
                    "SRR reads with layer=None (reconstruction) are compared as the set of non-fill values per element; "
-                   "sizes of extent-trimmed reads are C10's subject and are not compared"]
+                   "sizes of extent-trimmed reads are C10's subject and are not compared",
+                   "the reconstruction read stacks the layers into one array of layer 0's dtype: where an element's layer 0 is "
+                   "32-bit, its later layers are not given values beyond float32 precision when that read is made (cfg = 1); "
+                   "a case that does so, an npz start whose layers differ in dtype (a file holds one stacked array) or whose SRR "
+                   "fields are byte-swapped (known finding C01-srr-byteorder), and an id that is not a value of its array's "
+                   "dtype are not judged (counted as undetermined); the generator builds none of them"]
 
     # ---- enumeration
     def trees(self, alphabet, length, kinds=KINDS):
         """all successful sequences of length <= `length`: one tree for the short ones, then one tree per
         sequence of length `length - 1` (itself and its one-op extensions)"""
         for kind in kinds:
-            start = default_start(kind)
+            start = default_start(kind, deco=TREE_DECO)
             nl = len(start["ids"])
-            base = {"mode": "tree", "kind": kind, "alphabet": alphabet, "start": start, "light_leaves": True}
+            base = {"mode": "tree", "kind": kind, "alphabet": alphabet, "start": start, "light_leaves": True, "deco": TREE_DECO}
             if length <= 1:
                 yield {**base, "prefix": [], "depth": length}
                 continue
             yield {**base, "prefix": [], "depth": length - 2, "light_leaves": False}
             present, did, cid = start_state(start)
-            for seq in walk([], present, did, cid, length - 1, alphabet, nl):
+            for seq in walk([], present, did, cid, length - 1, alphabet, nl, TREE_DECO):
                 if len(seq) == length - 1:
                     yield {**base, "prefix": seq, "depth": 1}
 
@@ -887,7 +1088,7 @@ class C07(Prop):
             st = default_start(kind, ("A", "B", "C"))
             st["given"] = [["C", 1], ["A", 2]]
             nl = len(st["ids"])
-            d0 = max(i for l in st["ids"] for i in l) + 2
+            d0 = max(narrow(i) for l in st["ids"] for i in l) + 2
             yield {"mode": "seq", "kind": kind, "start": st, "ops": [
                 {"op": "caller_edit"},
                 {"op": "rename", "map": [["A", "B"], ["B", "A"]]},
@@ -900,6 +1101,7 @@ class C07(Prop):
                 {"op": "add", "name": "D", "data": [d0 + 2 * nl + 2 * i for i in range(nl)], "dtype": "<f8", "cal": 0},
             ]}
         yield from self.targeted_obj()
+        yield from self.targeted_dtypes()
         if tier == "quick":
             yield from self.trees(a4, 3)
         else:
@@ -912,18 +1114,65 @@ class C07(Prop):
         after an npz round trip (where every sequence costs a file load) every 4th prefix, the phase chosen by the seed."""
         phase = int(os.environ.get("VERIF_SEED", "0")) % 4
         for kind in KINDS:
-            start = default_start(kind)
+            start = default_start(kind, deco=TREE_DECO)
             nl = len(start["ids"])
             present, did, cid = start_state(start)
             stride = 4 if kind.endswith("_npz") else 1
             j = 0
-            for seq in walk([], present, did, cid, 2, alphabet, nl):
+            for seq in walk([], present, did, cid, 2, alphabet, nl, TREE_DECO):
                 if len(seq) == 2:
                     j += 1
                     if j % stride != phase % stride:
                         continue
                     yield {"mode": "tree", "kind": kind, "alphabet": alphabet, "start": start, "prefix": seq, "depth": 2,
-                           "min_len": 4, "light_leaves": True}
+                           "min_len": 4, "light_leaves": True, "deco": TREE_DECO}
+
+    def targeted_dtypes(self):
+        """SRR lasers whose layers do not share their dtypes: every way two / three layers of one element can differ in
+        precision (32-bit first, 64-bit first, the odd one in the middle or last), in byte order only, or both - handed
+        to add() on a laser with equal layers (fresh and loaded), on one constructed from layers that differ already,
+        and followed by the renames / removes / adds that must carry the arrays along untouched.  Values beyond float32
+        precision wherever the reconstruction read allows (everywhere when cfg = 0: no reconstruction is read)."""
+        two = [["<f4", "<f8"], ["<f8", "<f4"], [">f8", "<f8"], ["<f4", ">f4"], [">f4", "<f8"], ["<f8", ">f4"]]
+        three = [["<f4", "<f8", "<f8"], ["<f8", "<f4", "<f8"], ["<f8", "<f8", "<f4"], ["<f4", "<f4", "<f8"],
+                 ["<f4", ">f8", "<f4"], [">f8", "<f8", ">f4"]]
+        for kind, nl, cfg, mixed_start in (("srr", 2, 1, False), ("srr", 2, 0, True), ("srr_npz", 2, 1, False),
+                                           ("srr_npz", 2, 0, False), ("srr", 3, 0, False), ("srr", 3, 1, True),
+                                           ("srr_npz", 3, 1, False)):
+            names = ["A", "B", "C"]
+            pats = two if nl == 2 else three
+            ids = [[1 + 2 * (li * 3 + j) for j in range(3)] for li in range(nl)]
+            st = {"names": names, "dtypes": ["<f8", "<f4", "<f8" if kind == "srr_npz" else ">f8"], "shape": [2, 3],
+                  "ids": ids, "given": [["B", 1], ["C", 2]], "cfg": cfg}
+            if kind == "srr":
+                st["shape_odd"] = [3, 2]
+            if mixed_start:
+                st["layer_dtypes"] = [[pats[j][li] for j in range(3)] for li in range(nl)]
+            did = 1 + 2 * 3 * nl
+
+            def wide(dts, base):
+                """ids base, base + 2, ... of the arrays of one element, beyond float32 precision wherever allowed"""
+                return [widen(base + 2 * li, dt, cfg == 0 or li == 0 or is_f8(dts[0])) for li, dt in enumerate(dts)]
+
+            for j in range(3):
+                col = [start_layer_dtypes(st, li)[j] for li in range(nl)]
+                for li in range(nl):
+                    st["ids"][li][j] = widen(ids[li][j], col[li], cfg == 0 or li == 0 or is_f8(col[0]))
+            for k, dts in enumerate(pats):
+                n1, n2 = "DEFGHI"[k], "JKLMNO"[k]
+                ops = [add_op_dtypes({"op": "add", "name": n1, "data": wide(dts, did), "cal": 3 if k % 2 else 0}, dts),
+                       {"op": "rename", "map": [[n1, "A"], ["A", n1]]},
+                       add_op_dtypes({"op": "add", "name": n2, "data": wide(dts[::-1], did + 2 * nl), "cal": 4}, dts[::-1]),
+                       {"op": "remove", "names": ["B"], "as_str": True},
+                       {"op": "rename", "map": [[n2, "B"], ["A", n2], ["C", "A"]]},
+                       add_op_dtypes({"op": "add", "name": "C", "data": wide(["<f8"] * nl, did + 4 * nl), "cal": 0}, ["<f8"] * nl),
+                       {"op": "remove", "names": [n2, "B"]}]
+                yield {"mode": "seq", "kind": kind, "start": st, "ops": ops}
+                if k >= 2:
+                    continue
+                yield {"mode": "obj", "kind": kind, "start": {**st, "cal_objs": [1, 2], "given": [["B", 0], ["C", 1]]},
+                       "ops": [{**o, "cal": ({"new": o["cal"]} if o["cal"] else None)} if o["op"] == "add" else o
+                               for o in ops[:5]]}
 
     def search_extra(self, tier):
         yield from self.trees(["A", "B", "C", "D"], 3)
@@ -941,7 +1190,7 @@ class C07(Prop):
             st = default_start(kind, ("A", "B", "C"))
             st["cal_objs"] = [1, 3, 0]
             st["given"] = [["C", 0], ["A", 1]]
-            d0 = max(i for l in st["ids"] for i in l) + 2
+            d0 = max(narrow(i) for l in st["ids"] for i in l) + 2
             data = lambda k: [d0 + 2 * (k * nl + i) for i in range(nl)]
             sh = [layer_shape(st, li) for li in range(nl)]
             wrong = [[sh[0][0] + 1, sh[0][1]]] + sh[1:]
@@ -1040,12 +1289,14 @@ class C07(Prop):
             for n in rng.sample(names, rng.randint(0, n0)):
                 given.append([n, cid])
                 cid += 1
-        start = {"names": names, "dtypes": [rng.choice(DTYPES) for _ in names], "shape": shape, "ids": ids,
+        dts0, ld = gen_start_dtypes(rng, kind, n0, nl)
+        start = {"names": names, "dtypes": dts0, "shape": shape, "ids": ids,
                  "given": given, "cfg": rng.choice([0, 1, 1])}
+        if ld is not None:
+            start["layer_dtypes"] = ld
         if shape_odd is not None:
             start["shape_odd"] = shape_odd
-        if srr:  # one dtype per element across layers is what the structured stack needs; already so
-            pass
+        widen_start(rng, srr, start)
         present = list(names)
         ops = []
         length = rng.choice([1, 2, 3, 5, 8, 12, 18, 25])
@@ -1059,8 +1310,10 @@ class C07(Prop):
             k = rng.choice(choices)
             if k == "add":
                 withcal = rng.random() < 0.6
-                op = {"op": "add", "name": rng.choice(absent), "data": [did + 2 * i for i in range(nl)],
-                      "dtype": rng.choice(DTYPES), "cal": cid if withcal else 0}
+                dts = gen_add_dtypes(rng, srr, nl)
+                op = add_op_dtypes({"op": "add", "name": rng.choice(absent),
+                                    "data": gen_widen(rng, srr, start["cfg"], [did + 2 * i for i in range(nl)], dts),
+                                    "cal": cid if withcal else 0}, dts)
                 did += 2 * nl
                 cid += 1 if withcal else 0
             elif k == "remove":
@@ -1180,12 +1433,19 @@ class C07(Prop):
 
     def evaluate(self, case, ctx):
         kind, start = case["kind"], case["start"]
+        if case["mode"] != "tree":
+            try:
+                guard(kind, start, case["ops"])
+            except OutOfScope as e:
+                skip = {"not-judged": str(e)}
+                return outcome(skip, skip, skip, undetermined=True, features=[], note=str(e))
         tmp = ctx.tmpdir() if kind.endswith("_npz") else None
         feats = {f"kind:{kind}"}
         if case["mode"] == "obj":
             return self.eval_obj(case, ctx, tmp)
         if case["mode"] == "seq":
             ops = case["ops"]
+            feats |= dtype_features(start, ops)
             steps, plans, reqs, presents = self.plan_sequence(kind, start, ops, True, False)
             for op, present in zip(ops, presents):
                 feats |= op_features(op, present)
@@ -1208,9 +1468,17 @@ class C07(Prop):
         min_len = case.get("min_len", 0)
         full = len(case["prefix"]) + case["depth"]
         todo = []
-        for seq in walk(list(case["prefix"]), present, did, cid, case["depth"], alphabet, nl):
+        for seq in walk(list(case["prefix"]), present, did, cid, case["depth"], alphabet, nl, case.get("deco")):
             if len(seq) < min_len:  # shorter sequences are covered exhaustively by other trees
                 continue
+            try:
+                guard(kind, start, seq)
+            except OutOfScope as e:
+                if case.get("deco") == TREE_DECO:
+                    raise InternalError(f"the enumeration built a sequence that cannot be judged: {e}")
+                feats.add("tree:sequence-not-judged")
+                continue
+            feats |= dtype_features(start, seq)
             light = bool(case.get("light_leaves")) and len(seq) == full and case["depth"] > 0
             steps, plans, reqs, presents = self.plan_sequence(kind, start, seq, False, light)
             for op, p in zip(seq, presents):
@@ -1384,6 +1652,7 @@ class C07(Prop):
             feats.add("fail:half-way")
         for i, op in enumerate(ops):
             feats |= self.obj_features(op, errs[i], unchanged[i], i < scope, srr)
+        feats |= dtype_features(start, [op for i, op in enumerate(ops) if errs[i] is None])
         if not in_scope0:
             feats.add("construct:stray-calibration-key")
         if start["given"] is not None and len({j for _, j in start["given"]}) < len(start["given"]):
@@ -1457,10 +1726,14 @@ class C07(Prop):
             given = [[k, rng.randrange(ncal) if rng.random() < 0.25 else j % ncal] for j, k in enumerate(keys)]
         elif rng.random() < 0.5:
             given = []
-        start = {"names": names, "dtypes": [rng.choice(DTYPES) for _ in names], "shape": shape, "ids": ids,
+        dts0, ld = gen_start_dtypes(rng, kind, n0, nl)
+        start = {"names": names, "dtypes": dts0, "shape": shape, "ids": ids,
                  "cal_objs": content, "given": given, "cfg": rng.choice([0, 1, 1])}
+        if ld is not None:
+            start["layer_dtypes"] = ld
         if shape_odd is not None:
             start["shape_odd"] = shape_odd
+        widen_start(rng, srr, start)
         # what the caller holds (indices as in ObjWorld / the driver): arrays, calibrations, dicts, configs
         n_arrs = nl
         arr_cols = [n0] * nl
@@ -1501,8 +1774,10 @@ class C07(Prop):
                     cid += 1
                 else:
                     cal = {"obj": rng.randrange(len(cal_content))}
-                op = {"op": "add", "name": rng.choice(absent), "data": [did + 2 * i for i in range(nl)],
-                      "dtype": rng.choice(DTYPES), "cal": cal}
+                dts = gen_add_dtypes(rng, srr, nl)
+                op = add_op_dtypes({"op": "add", "name": rng.choice(absent),
+                                    "data": gen_widen(rng, srr, start["cfg"], [did + 2 * i for i in range(nl)], dts),
+                                    "cal": cal}, dts)
                 did += 2 * nl
                 n_arrs += nl
                 arr_cols += [1] * nl
@@ -1665,6 +1940,18 @@ class C07(Prop):
                     cand = ops[:i] + [{**op, "names": op["names"][:j] + op["names"][j + 1:]}] + ops[i + 1:]
                     if abstract_run(start, cand) is not None:
                         yield {**case, "ops": cand}
+            if op["op"] == "add":  # plainer arrays: one dtype for all layers, native byte order, small values
+                if op.get("dtypes"):
+                    yield {**case, "ops": ops[:i] + [{k: v for k, v in op.items() if k != "dtypes"}] + ops[i + 1:]}
+                nat = [np.dtype(d).newbyteorder("=").str for d in add_dtypes(op, len(op["data"]))]
+                if nat != add_dtypes(op, len(op["data"])):
+                    yield {**case, "ops": ops[:i] + [add_op_dtypes({k: v for k, v in op.items() if k != "dtypes"}, nat)] + ops[i + 1:]}
+                if any(x >= WIDE for x in op["data"]):
+                    yield {**case, "ops": ops[:i] + [{**op, "data": [narrow(x) for x in op["data"]]}] + ops[i + 1:]}
+        if start.get("layer_dtypes"):
+            yield {**case, "start": {k: v for k, v in start.items() if k != "layer_dtypes"}}
+        if any(x >= WIDE for l in start["ids"] for x in l):
+            yield {**case, "start": {**start, "ids": [[narrow(x) for x in l] for l in start["ids"]]}}
 
 
 PROP = C07()
